@@ -101,7 +101,7 @@ example : ∀ F, 90 ≤ F → ∃ s',
     · exact .bin 0 8 _ _ _ _ (by decide) (by decide) (.id _ _) (.paren _ _ (.id _ _))
   have hs := ParenExpr.seesT_init [("LPAREN", "("), ("ID", "a"), ("MINUS", "-"), ("ID", "b"), ("RPAREN", ")"), ("TIMES", "*"),
     ("LPAREN", "("), ("ID", "c"), ("MINUS", "-"), ("LPAREN", "("), ("ID", "d"), ("RPAREN", ")"),
-    ("RPAREN", ")"), ("EQ", "=="), ("ID", "e"), ("SEMI", ";")] (by decide)
+    ("RPAREN", ")"), ("EQ", "=="), ("ID", "e"), ("SEMI", ";")]
   intro F hF
   obtain ⟨s', hr, hs', _⟩ := expressions_parse_as_the_grammar_says e 0 _ ("SEMI", ";") [] hwf (by decide) (by decide) hs F
     (Nat.le_trans (by decide) hF)
